@@ -604,7 +604,24 @@ impl<'a> LiveEvents<'a> {
         };
 
         let raw = match ev {
-            Ev::Scalar { value, style, .. } => Event::Scalar(Cow::Borrowed(value), *style, 0, None),
+            Ev::Scalar {
+                value,
+                style,
+                tag,
+                raw_tag,
+                ..
+            } => {
+                // The enforcer only asks whether the scalar is tagged (a tagged `<<` is an
+                // ordinary key), so any tag stands in for the original one.
+                let tagged = raw_tag.is_some() || *tag != SfTag::None;
+                let tag = tagged.then(|| {
+                    Cow::Owned(saphyr_parser::Tag {
+                        handle: String::from("!"),
+                        suffix: String::new(),
+                    })
+                });
+                Event::Scalar(Cow::Borrowed(value), *style, 0, tag)
+            }
             Ev::SeqStart { .. } => Event::SequenceStart(0, None),
             Ev::SeqEnd { .. } => Event::SequenceEnd,
             Ev::MapStart { .. } => Event::MappingStart(0, None),
